@@ -129,8 +129,9 @@ Definition model_assoc (k : cls_spec) (inh : bool) (i : inst) (changes : alist) 
    end, model_orig k i (fst r)).
 
 (** ** The property's postcondition for [assoc], stated on the observation alone
-    (no reference to the model of [assoc]): the unchanged tree violates it in the two
-    recorded ways (K3a, K3b), and exactly then the harness files a property-level case. *)
+    (no reference to the model of [assoc]).  K3a and K3b were found as violations of it;
+    both are repaired in /repo, so no run is expected to violate it; when one does, the
+    harness files a property-level case (and must flag exactly those runs). *)
 
 Definition all_set (st : state) : bool :=
   forallb (fun p => match snd p with Some _ => true | None => false end) st.
